@@ -244,7 +244,8 @@ class AbstractTifa:
         for name in ('store_variable', 'load_variable', 'merge_paths', 'combine_states', 'match_rso', 'search_parents',
                      'find_path_parent', 'find_variable_scope', '_finish_scope', 'reset'):
             if name not in self.core_methods:
-                raise AnalysisError("anchor vanished: TifaCore.%s" % name)
+                # (an alias such as `match_rso = staticmethod(match_rso)` for a helper that moved to module level)
+                self.core_methods[name] = self.core.func('TifaCore.' + name)
             ctx.analysed_function(self.core, self.core_methods[name])
         for name, fn in self.vis_methods.items():
             ctx.analysed_function(self.vis, fn)
